@@ -50,6 +50,14 @@ void hv_case(uint64_t index)
   /* a modification history before the dup: restricts invalidate the distances object cache, memattr caches ... */
   unsigned pre = (unsigned)hv_below(&R, 10);
   for (unsigned k = 0; k < pre; k++) { struct hx_result res; hx_random_op(&h, HX_ANNOTATE | (1u << HX_RESTRICT), &res); hv_desc("  pre: %s -> %d\n", res.desc, res.rc); }
+  if (hv_chance(&R, 1, 3)) {
+    /* arrays that were filled and emptied again before the dup (count 0, storage still allocated): infos of a few objects and of the topology */
+    struct tv_view vw; tv_view_build(t, &vw, 0); unsigned n = 1 + (unsigned)hv_below(&R, 5);
+    for (unsigned q = 0; q < n; q++) { hwloc_obj_t o = vw.v[hv_below(&R, vw.n)].o; unsigned k = 1 + (unsigned)hv_below(&R, 9); for (unsigned j = 0; j < k; j++) { char nm[16]; snprintf(nm, sizeof nm, "tmp%u", j); hwloc_obj_add_info(o, nm, "x"); }
+      hwloc_modify_infos(&o->infos, HWLOC_MODIFY_INFOS_OP_REMOVE, NULL, NULL); }
+    if (hv_chance(&R, 1, 2)) { struct hwloc_infos_s *ti = hwloc_topology_get_infos(t); hwloc_modify_infos(ti, HWLOC_MODIFY_INFOS_OP_ADD, "tmp", "x"); if (hv_chance(&R, 1, 2)) hwloc_modify_infos(ti, HWLOC_MODIFY_INFOS_OP_REMOVE, NULL, NULL); }
+    tv_view_free(&vw); hv_desc("  pre: infos of %u objects filled and emptied again\n", n); hv_stat("pre.emptied_info_arrays", 1);
+  }
   { struct tv_view vw; tv_view_build(t, &vw, 0); for (unsigned i = 0; i < vw.n; i++) if (hv_chance(&R, 1, 2)) vw.v[i].o->userdata = (void *)(uintptr_t)(0xBEEF0000u + i * 8); tv_view_free(&vw); }
   hwloc_topology_set_userdata(t, (void *)0x1234);
   if (hv_chance(&R, 1, 3)) hwloc_topology_refresh(t);
@@ -76,6 +84,21 @@ void hv_case(uint64_t index)
       hv_stat("xml_compared", 1);
     }
     if (b1) hwloc_free_xmlbuffer(t, b1); if (b2) hwloc_free_xmlbuffer(d, b2);
+  }
+  /* 1b. equivalent means: the same calls have the same effect on both. Every object (and the topology) of both copies gets the same info
+   * additions / replacements; the two must still be observably identical afterwards */
+  if (!hv_viol_count() && hv_chance(&R, 1, 2)) {
+    hv_ctxkey("same_edit_on_both");
+    struct tv_view v1, v2; tv_view_build(t, &v1, 0); tv_view_build(d, &v2, 0);
+    if (v1.n == v2.n) {
+      for (unsigned i = 0; i < v1.n; i++) { char val[24]; snprintf(val, sizeof val, "v%u", i % 7);
+        for (int w = 0; w < 2; w++) { hwloc_obj_t o = (w ? v2 : v1).v[i].o; if (i % 3 == 0) hwloc_obj_add_info(o, "DupProbe", val); else if (i % 3 == 1) hwloc_modify_infos(&o->infos, HWLOC_MODIFY_INFOS_OP_REPLACE, "DupProbe", val); else { hwloc_obj_add_info(o, "DupProbe", val); hwloc_obj_add_info(o, "DupProbe2", val); } } }
+      hwloc_modify_infos(hwloc_topology_get_infos(t), HWLOC_MODIFY_INFOS_OP_ADD, "DupProbeT", "1"); hwloc_modify_infos(hwloc_topology_get_infos(d), HWLOC_MODIFY_INFOS_OP_ADD, "DupProbeT", "1");
+      struct hv_str a2, b2; hv_str_init(&a2); hv_str_init(&b2); canon_dump(t, CANON_ALL, &a2); canon_dump(d, CANON_ALL, &b2);
+      const char *d3 = canon_diff(&a2, &b2); if (d3) hv_viol("dup.diverges_under_same_edit", "after the same info additions on both, the copy differs from the original: %s", d3);
+      hv_str_free(&a2); hv_str_free(&b2); hv_stat("same_edit_on_both", 1);
+    }
+    tv_view_free(&v1); tv_view_free(&v2);
   }
   /* 2. cross-mutation: a history on one copy never changes what the other reports */
   if (!hv_viol_count()) {
